@@ -2,6 +2,11 @@
 
 package metrics
 
+import (
+	"github.com/siglens/siglens/pkg/segment/structs"
+	sutils "github.com/siglens/siglens/pkg/segment/utils"
+)
+
 // VerifExtractWALFileInfo exposes the grouping and ordering of WAL files that RecoverWALData replays.
 func VerifExtractWALFileInfo(baseDir string) (map[string][]string, error) {
 	m, err := extractWALFileInfo(baseDir)
@@ -14,3 +19,71 @@ func VerifExtractWALFileInfo(baseDir string) (map[string][]string, error) {
 	}
 	return out, nil
 }
+
+// One iteration of the bodies of the three 1-second WAL flush loops (timeBasedWalDPSFlush, timeBasedMNameWalFlush,
+// timeBasedMetaEntryWalFlush are endless `for { time.Sleep(1 s); body }` loops; the bodies below are copied
+// statement for statement so that a worker can complete an append of each log at a chosen instant).
+func VerifDpWalFlushOnce() {
+	for _, ms := range GetAllMetricsSegments() {
+		ms.mBlock.dpWalState.lock.Lock()
+		if ms.mBlock.dpWalState.dpIdx > 0 {
+			_ = ms.mBlock.dpWalState.currentWal.Append(ms.mBlock.dpWalState.dpsInWalMem[0:ms.mBlock.dpWalState.dpIdx])
+			totalEncodedSize := ms.mBlock.dpWalState.currentWal.GetWALStats()
+			if totalEncodedSize > sutils.MAX_WAL_FILE_SIZE_BYTES {
+				_ = ms.mBlock.rotateWAL()
+			}
+			ms.mBlock.dpWalState.dpIdx = 0
+		}
+		ms.mBlock.dpWalState.lock.Unlock()
+	}
+}
+
+func VerifMNameWalFlushOnce() {
+	for _, ms := range GetAllMetricsSegments() {
+		ms.mNameWalState.lock.Lock()
+		if len(ms.mNameWalState.metricsNames) > 0 {
+			err := ms.mNameWalState.wal.Append(ms.mNameWalState.metricsNames)
+			if err != nil {
+				ms.mNameWalState.lock.Unlock()
+				continue
+			}
+			ms.mNameWalState.metricsNames = ms.mNameWalState.metricsNames[:0]
+		}
+		ms.mNameWalState.lock.Unlock()
+	}
+}
+
+// returns the MSegmentDir and DatapointCount of the entries whose Write completed
+func VerifMetaEntryWalFlushOnce() (map[string]uint64, error) {
+	var allMetaEntries []*structs.MetricsMeta
+	for _, ms := range GetAllMetricsSegments() {
+		ms.mNameWalState.lock.Lock()
+		finalDir := GetFinalMetricsDir(ms.Mid, ms.Suffix)
+		metaEntry := ms.getMetaEntry(finalDir, ms.Suffix)
+		allMetaEntries = append(allMetaEntries, metaEntry)
+		ms.mNameWalState.lock.Unlock()
+	}
+	out := map[string]uint64{}
+	if metricsMEntryWalState.wal != nil {
+		err := metricsMEntryWalState.wal.Write(allMetaEntries)
+		if err != nil {
+			return nil, err
+		}
+		for _, e := range allMetaEntries {
+			out[e.MSegmentDir] = e.DatapointCount
+		}
+	}
+	return out, nil
+}
+
+// VerifShardOf: the shard (Mid) a metric name is routed to.
+func VerifShardOf(mName []byte) string {
+	ms, _, err := getMetricsSegment(mName, 0)
+	if err != nil || ms == nil {
+		return ""
+	}
+	return ms.Mid
+}
+
+// VerifSegEncodedSize: ForceFlushMetricsBlock skips segments whose encoded size is 0.
+func (ms *MetricsSegment) VerifSegEncodedSize() uint64 { return ms.mSegEncodedSize }
